@@ -4,8 +4,11 @@ P = {}
 def prop (id, text, note, technique, ref):
   P[id] = dict(text=text, note=note, technique=technique, ref=ref)
 
-COMMON_NOTE = (" Trusted base: CPython ast/struct semantics, the pxa engine (CFG, dominance, effect intervals, "
-  "layout extraction), spec tables under /verif/spec; assert statements execute (no -O); no monkey-patching beyond the modelled idioms.")
+COMMON_NOTE = (" Trusted base: CPython ast/struct semantics, the pxa engine (CFG, dominance, effect intervals, path "
+  "enumeration with constant propagation, layout extraction, source normalisation against the reference vocabulary "
+  "spec/inventory.json: new helpers inlined, new temporaries and literal constants expanded), spec tables under /verif/spec; "
+  "assert statements execute (no -O); no monkey-patching beyond the modelled idioms. Rules are three-valued: 'undecided' "
+  "obligations are listed in the evidence and raise no alarm.")
 
 prop('C18',
   "Static analysis of /repo's current source: decides on all paths the structural necessary conditions of the buffer "
@@ -255,6 +258,32 @@ prop('C15',
   "not totality of parsing for every byte string.",
   "Not decided: totality as such (arbitrary attribute errors, arithmetic on parsed values, recursion depth), printing/re-serialisation of partially parsed chains beyond struct codes, dispatch through registries the resolver cannot follow.",
   "custom AST/CFG checker: interprocedural may-raise/escape analysis with try-containment over a resolved call graph, guard dominance with format arithmetic, parse/hdr code agreement", "DESIGN.md 5/C15")
+
+
+# rules added after the second (unseen) batch of seeded changes and the behaviour-preserving twins (DESIGN 9.7)
+ADDED = {
+  'C18': "Also: every origin of the reused slot index was selected under a free test of that slot (reaching definitions followed through copies); the allocator refuses a buffer only after the free-slot scan.",
+  'C13': "Also: the error's xid is decided by evaluation (ofp.xid=4242 -> sent xid 4242); aggregate / description handlers never answer with a list body; the connection's send() writes to the IO worker on every path (no deferred encoding); methods called eagerly on the request object are followed through the codec and pox.lib.util for definite bytes/str type errors.",
+  'C04': "Argument agreement is decided by evaluating the effective arguments (explicit or callee default) along every path; also: the overlap scan stops early only on the sort key (effective_priority); SEND_FLOW_REM/EMERG handling decided for all four flag combinations; expiry lists as loops or comprehensions.",
+  'C11': "Also: flow_mod.pack is evaluated under four scenarios (own buffer id, none, buffered / unbuffered packet-in data) for the value in the buffer-id slot and the extra packet-out; the packet-in handed to the controller is truncated only when buffered (rule shared with C18).",
+  'C15': "Also: what parse() extracts from a bit-field word fits back into the word hdr() assembles (sample-domain evaluation); reads that no dominating test - here or at any call site - relates to the buffer's length are violations, other unprovable reads are undecided; ord() of a bytes element, literal %-format arity, the IPv6 available-length clamp and own __str__ methods formatting possibly-None fields.",
+  'C14': "Also: parse() and the serialiser cut the fixed header into the same items (LLDP TLV parse/pack pairs included); set_payload re-links a packet payload to its new carrier whatever it was linked to before (source of the pseudo-header).",
+  'C03': "Also: a sort-key list used for bisecting is updated wherever the table is; the transport prerequisite sets equal the protocols from_packet extracts (1, 6, 17); lookup as loop or next(generator, None); effective_priority decided by evaluating both branches.",
+  'C09': "Also: a draining replay loop must pop from the head (arrival order); _connect stores the connection on every path.",
+  'C06': "Also: an expired waiter's descriptors are not also handed to select(); a relative timer is anchored when started, not when constructed; re-run of a task after its blocking operation decided by evaluating each possible result.",
+  'C10': "Also: no swallowing frame lies between the receive handler and the catch-all that closes the worker; `while True` loops are driven by the tests guarding their breaks.",
+  'C02': "Also: after a handler exception the loop goes on with the next message (error handler summarised per constant reason); the decoder may be fetched into a local first (provenance from the unpacker table).",
+  'C05': "Also: no removal hides behind a short-circuit operand; the by-name prefix length is compared symbolically (constant + n*len(prefix)).",
+  'C08': "Readiness (two named components, every subset registered) and the sweep's fixpoint (second pass iff a waiter fired) are decided by path evaluation, so loops, all()/any() and comprehension forms are alike.",
+  'C12': "Emission, receive, fragment and rewrite rules use structural matchers and constant propagation (port looked up by `in` or .get(), STP-ness by the comparison with _STP_MAC, selected NO_RECV bit through a local); rewrite targets are followed to their origins; the port-mod mask rule is three-valued.",
+  'C17': "Aggregation is decided by evaluation on sample parts ([a,b]+[c] -> [a,b,c]); reassembly handler reachability with constant propagation.",
+  'C19': "Writer format (dpid 0x1a2b3c -> b'dpid:1a2b3c'), flood bit for each (in tree, edge port) and the links selected for a lost switch (sample adjacency) are decided by evaluation; LinkEvent(added) may be guarded by a flag computed before the insert.",
+  'C20': "The byte count of the direct write is identified structurally (target of the send call), buffer state by value.",
+  'C01': "Also: a sub-object packed with omittable=True must not be counted by the length function; _wire_wildcards gating decided by evaluation per ethertype; pack() assembled from a list of pieces joined at the end is understood.",
+  'C07': "The dequeued function may be element 0 of the popped item or the first name of a tuple-unpacking pop.",
+}
+for _k, _v in ADDED.items():
+  if _k in P: P[_k]['text'] = P[_k]['text'] + " " + _v
 
 NOT_APPLICABLE = {
   'C16': "Address types: the statement is about numeric/textual agreement over the whole address domain (byte order, mask arithmetic, CIDR parsing, zero-run compression, round trips, rejection of malformed text) - results of computations on runtime values; no shape-level rule is a necessary and telling condition for it (DESIGN.md section 7).",
